@@ -7,6 +7,7 @@ import (
 	"sort"
 	"strings"
 
+	"bngvet/internal/esp"
 	"bngvet/internal/flow"
 	"bngvet/internal/load"
 	"bngvet/internal/locks"
@@ -74,7 +75,34 @@ func accessesOf(f *ssa.Function, typ *types.Named, fields map[string]bool) []fie
 							out = append(out, fieldAccess{u, fa.X, name, false})
 							wrote = true
 						}
-					case *ssa.Lookup, *ssa.Range, *ssa.IndexAddr, *ssa.Slice:
+					case *ssa.Lookup:
+						out = append(out, fieldAccess{use, fa.X, name, false})
+						wrote = true
+						// nested map: m.f[k1][k2] = v / delete(m.f[k1], k2) write the structure the field owns
+						inner := []ssa.Value{u}
+						if u.CommaOk {
+							inner = nil
+							for _, r2 := range *u.Referrers() {
+								if ex, ok := r2.(*ssa.Extract); ok && ex.Index == 0 {
+									inner = append(inner, ex)
+								}
+							}
+						}
+						for _, iv := range inner {
+							for _, r2 := range *iv.Referrers() {
+								switch w := r2.(type) {
+								case *ssa.MapUpdate:
+									if w.Map == iv {
+										out = append(out, fieldAccess{w, fa.X, name, true})
+									}
+								case *ssa.Call:
+									if b, ok := w.Call.Value.(*ssa.Builtin); ok && b.Name() == "delete" && w.Call.Args[0] == iv {
+										out = append(out, fieldAccess{w, fa.X, name, true})
+									}
+								}
+							}
+						}
+					case *ssa.Range, *ssa.IndexAddr, *ssa.Slice:
 						out = append(out, fieldAccess{use, fa.X, name, false})
 						wrote = true
 					}
@@ -477,6 +505,95 @@ func atomicInsertRule(c *Ctx, rule string, specs []insertSpec) {
 		}
 		if n == 0 {
 			c.R.Check(rule, sp.typ, "inserts into "+owner, "-", false, "no insert into the owner map found — anchors moved?")
+		}
+	}
+}
+
+// pairRuleESP is the path-sensitive form of the pairing rule for mappings whose reverse side is nested or whose
+// deletes are guarded by the presence of the reverse entry: for every method of the type, in every exit configuration
+//
+//	insert(fwd) ⇔ insert(rev);  delete(fwd) ⇒ delete(rev) or the path shows the reverse entry absent;
+//	delete(rev) ⇒ delete(fwd) or insert(fwd) (overwritten);  insert(fwd) over an existing entry ⇒ delete(rev) (eviction).
+func pairRuleESP(c *Ctx, rule string, specs []pairSpec) {
+	for _, sp := range specs {
+		pk := c.P.SSAPkg(sp.rel)
+		tn, _ := pk.Pkg.Scope().Lookup(sp.typ).(*types.TypeName)
+		if tn == nil {
+			c.R.Fatalf("%s: type %s.%s not found", rule, sp.rel, sp.typ)
+			continue
+		}
+		named := tn.Type().(*types.Named)
+		fwdF, revF := sp.typ+"."+sp.fwd, sp.typ+"."+sp.rev
+		opLabel := func(in ssa.Instruction) []string {
+			var out []string
+			for _, fld := range []string{sp.fwd, sp.rev} {
+				for _, a := range accessesOf(in.Parent(), named, map[string]bool{fld: true}) {
+					if a.in != in || !a.write {
+						continue
+					}
+					switch x := in.(type) {
+					case *ssa.MapUpdate:
+						if _, isMake := x.Value.(*ssa.MakeMap); isMake {
+							continue // creating an inner map is not a logical insert
+						}
+						out = append(out, "ins:"+fld)
+					case *ssa.Call:
+						out = append(out, "del:"+fld)
+					}
+				}
+			}
+			return out
+		}
+		spec := &esp.Spec{Recv: named, Fields: map[string]bool{}, Atom: guardName,
+			Inline: func(callee *ssa.Function) bool { return flow.RecvTypeName(callee) == sp.typ && callee.Pkg == pk }}
+		spec.InstrAction = opLabel
+		spec.MultiAction = func(call ssa.CallInstruction) []string { return opLabel(call) }
+		n := 0
+		for _, f := range c.moduleFuncs() {
+			if flow.RecvTypeName(f) != sp.typ || f.Pkg != pk {
+				continue
+			}
+			if _, ex := sp.exempt[f.Name()]; ex {
+				continue
+			}
+			touches := len(accessesOf(f, named, map[string]bool{sp.fwd: true, sp.rev: true})) > 0
+			if !touches {
+				continue
+			}
+			outs := spec.Run(f, nil)
+			var bad []string
+			wrote := false
+			for _, o := range outs {
+				acts, atoms := o.ActList(), o.AtomList()
+				iF, iR, dF, dR := has(acts, "ins:"+sp.fwd), has(acts, "ins:"+sp.rev), has(acts, "del:"+sp.fwd), has(acts, "del:"+sp.rev)
+				if iF || iR || dF || dR {
+					wrote = true
+				}
+				revAbsent := atomHolds(atoms, "found("+revF+")", "", "") || has(atoms, "!found("+revF+")") || atomHolds(atoms, "elem("+revF+")", "!=", "·") || atomHolds(atoms, "elem("+revF+")", "==", "nil")
+				switch {
+				case iF != iR:
+					bad = append(bad, fmt.Sprintf("insert into only one direction on path %v (%v)", atoms, acts))
+				case dF && !dR && !revAbsent:
+					bad = append(bad, fmt.Sprintf("%s entry deleted but %s entry kept on path %v", sp.fwd, sp.rev, atoms))
+				case dR && !dF && !iF:
+					bad = append(bad, fmt.Sprintf("%s entry deleted but %s entry kept on path %v", sp.rev, sp.fwd, atoms))
+				case iF && has(atoms, "found("+fwdF+")") && !dR && !revAbsent:
+					bad = append(bad, fmt.Sprintf("%s[key] overwritten without evicting the old %s entry on path %v", sp.fwd, sp.rev, atoms))
+				}
+			}
+			if !wrote {
+				continue
+			}
+			n++
+			d := ""
+			if len(bad) > 0 {
+				sort.Strings(bad)
+				d = bad[0]
+			}
+			c.R.Check(rule, load.ShortFunc(f), "mapping "+sp.fwd+" <-> "+sp.rev+" stays a bijection", c.P.Pos(f.Pos()), len(bad) == 0, d)
+		}
+		if n == 0 {
+			c.R.Check(rule, sp.typ, "pair "+sp.fwd+"/"+sp.rev, "-", false, "no method writes this pair of maps — anchors moved?")
 		}
 	}
 }
